@@ -173,7 +173,7 @@ def quantity_task(acc: work.Acc, uc: str, vc: str, kinds: Dict[str, str]) -> Non
 
     def replay(goalname: str):
         def r(m: Dict[str, Fraction]) -> str:
-            return HEADER + f"""
+            body = HEADER + f"""
 U, V = {uc}, {vc}
 x, y = {lit(kinds['x'], m['x'])}, {lit(kinds['y'], m['y'])}
 rho = {float(rho)!r}   # size(U)/size(V) from the declarations, independent of the planner
@@ -204,6 +204,34 @@ want = dict(eq_aa=True, eq_ab=eq, eq_ba=eq, ne_ab=not eq, lt_ab=lt, le_ab=lt or 
 bad = {{k: (obs[k], want[k]) for k in obs if bool(obs[k]) != want[k]}}
 if bad:
     print('REPRODUCED: comparisons disagree with physical values:', bad); sys.exit(1)
+sys.exit(0)
+"""
+            if set(kinds.values()) != {"float", "dec"}:
+                return body
+            # float against Decimal: the solver's witness rests on the stub "float(Decimal) is some
+            # double within 2**-53 of the value"; the real rounding is pinned down by concretising
+            # the witness: the float side as the double it is, the Decimal side as the model value,
+            # as the float's shortest repr, and as the float's exact value moved by a quarter ulp
+            fk = "x" if kinds["x"] == "float" else "y"
+            dk = "y" if fk == "x" else "x"
+            fv = float(m[fk])
+            cands: List[Tuple[float, str]] = []
+            for f in (fv, float(m[dk]), 0.1, 1.1, 2.675, -0.3):
+                if f != f or f in (float("inf"), float("-inf")):
+                    continue
+                cands += [(f, lit("dec", m[dk])), (f, f"Decimal({repr(f)!r})"),
+                          (f, f"(Decimal({f!r}) * (1 + Decimal(2) ** -55))"),
+                          (f, f"(Decimal({f!r}) * (1 - Decimal(2) ** -55))")]
+            first = f"x, y = {lit(kinds['x'], m['x'])}, {lit(kinds['y'], m['y'])}\n"
+            assert first in body
+            head, rest = body.split(first, 1)
+            rest = rest.replace("sys.exit(0)", "return 0").replace("sys.exit(1)", "return 1")
+            rest = "".join("    " + ln + "\n" for ln in rest.splitlines())
+            pairs = ", ".join(f"({f!r}, {d})" if fk == "x" else f"({d}, {f!r})" for f, d in cands)
+            return head + "def judge(x, y):\n" + rest + f"""    return 0
+for x, y in [{pairs}]:
+    if judge(x, y):
+        sys.exit(1)
 sys.exit(0)
 """
         return r
@@ -380,7 +408,11 @@ sys.exit(0)
                   f"{cfg}#p{i}:symmetric", key, f"C12:measurement:{shape}:eq-asymmetric",
                   f"(a == b) != (b == a) for {cfg}", replay)
         acc.prove(case, p, o["eq_aa"], f"{cfg}#p{i}:reflexive", key,
-                  f"C12:measurement:{shape}:not-reflexive", f"a != a for {cfg}", replay)
+                  f"C12:measurement:{shape}:not-reflexive", f"a != a for {cfg}", replay,
+                  # code that converts an operand to compare it with itself is reflexive or not
+                  # depending on double rounding (x*1000*0.001 == x), which exact reals do not
+                  # show: a witness that does not replay is inconclusive, not a harness error
+                  always_soft=True)
     acc.sample({"config": cfg, "paths": len(ex.paths)})
     acc.out["selfchecked"] += case.selfchecked
 
